@@ -136,10 +136,12 @@ def replay_files(run, files, labels, tag, workers=12):
     return traces, ''
 
 
-def dnum(h, bits=128):
+def dnum(h, bits=64):
+    """a hex digest as a Coq N numeral: the first `bits` bits (hexadecimal numerals parse ~5x faster than decimal ones;
+    64 bits of a SHA-256 value are plenty to detect a difference, the application hash is compared in full)"""
     if not h:
         return '0'
-    return str(int(h[:bits // 4], 16))
+    return '0x' + h[:bits // 4]
 
 
 def obs_term(o):
@@ -151,7 +153,7 @@ def obs_term(o):
 
 def evaluate(run, cases, tag):
     """cases: list of lists of traces (each trace = list of obs dicts); returns list of (case, step, field) or (None, log)"""
-    size = 12
+    size = 3
     shards = [cases[i:i + size] for i in range(0, len(cases), size)]
 
     def one(ix):
@@ -163,7 +165,7 @@ def evaluate(run, cases, tag):
         if res['_rc'] != 0 or d is None:
             return ('error', res['_out'][-3000:])
         return [(c + i * size, s, f) for c, s, f in d]
-    outs = vlib.parallel(one, list(enumerate(shards)), workers=8)
+    outs = vlib.parallel(one, list(enumerate(shards)), workers=12)
     allv = []
     for o in outs:
         if o and o[0] == 'error':
@@ -259,8 +261,18 @@ def report(run, per, hists, traces, labels, look_behind=True):
 
 
 def check(run):
+    import time
+    t0 = time.time()
+    timing = {}
+
+    def lap(name):
+        nonlocal t0
+        timing[name] = round(time.time() - t0, 1)
+        t0 = time.time()
     pr = run.proof_stage(extra_modules=['theories/Props/C14_inventory.v'])
+    lap('proofs')
     inv, log = inventory(run)
+    lap('inventory')
     if inv is None:
         run.violation(dict(kind='inventory-evaluation-failed', log=log, build_log=pr['build_log'][-3000:],
                            explanation='the hazard inventory could not be regenerated / evaluated (translator tools/gotocoq/hazards '
@@ -278,7 +290,9 @@ def check(run):
     if static_open:   # an open obligation: search harder (more histories, the same comparison)
         n = run.budget(45, 300)
     hdir = os.path.join(run.work, 'hist')
+    lap('harness_build')
     index, log = generate(run, run.seed, n, steps, hdir, eth_headers=run.budget(1, 3))
+    lap('generate')
     if index is None:
         run.violation(dict(kind='harness-crashed', stage='generate', log=log), no_input=True)
         return run.finish()
@@ -288,6 +302,7 @@ def check(run):
         run.violation(dict(kind='replay-or-evaluation-failed', log=evals), no_input=True)
         return run.finish()
     per, hists = res
+    lap('replay_and_compare')
     stats, behind = report(run, per, hists, traces, labels)
     # behind a history in which the temp-dir finding fired everything after it differs: replay those again with usable
     # temporary directories on both sides so that any OTHER disagreement in them is still seen
@@ -303,6 +318,8 @@ def check(run):
 
     # map-loop models vs the real functions
     ml = maploops_stage(run)
+    lap('maploops')
+    run.coverage['timing_s'] = timing
 
     # ---- coverage -------------------------------------------------------------------------------------
     tags = Counter()
@@ -382,8 +399,53 @@ def maploops_stage(run):
     cases = vlib.read_jsonl(out)
     if not cases:
         return dict(evaluations=0)
-    from props import c14_maploops
-    return c14_maploops.evaluate(run, cases)
+    return maploops_evaluate(run, cases)
+
+
+def hb(h):
+    return vlib.coq_literal_bytes(bytes.fromhex(h))
+
+
+def sb(x):
+    return vlib.coq_literal_bytes(x.encode())
+
+
+def mlcase_term(c):
+    if c['kind'] == 'validators':
+        return '(CValidators %s %d %s %s %d)' % (coq_list([hb(e) for e in c.get('entries') or []]), c.get('number', 0), hb(c['validator']),
+                                                 coq_list([hb(e) for e in c.get('real_sorted') or []]), c['real_inturn'])
+    if c['kind'] == 'macc':
+        pairs = lambda ps: coq_list(['(%s, %s)' % (sb(k), 'true' if v == '1' else 'false') for k, v in ps])
+        return '(CMacc %s %s %s %s)' % (
+            coq_list(['(%s, (%s, %s))' % (sb(n), sb(a), 'true' if al == '1' else 'false') for n, a, al in c['macc']]),
+            pairs(c['real_mod']), pairs(c['real_blocked']), coq_list([sb(k) for k in c['real_copy']]))
+    return '(CHandlers %s %s %s %s)' % (coq_list(['(%s, %s)' % (sb(n), hb(i)) for n, i in c['events']]),
+                                       coq_list([sb(k) for k in c['known']]), coq_list([hb(i) for i in c.get('real_ids') or []]),
+                                       'true' if c['real_panicked'] else 'false')
+
+
+def maploops_evaluate(run, cases):
+    size = 400
+    shards = [cases[i:i + size] for i in range(0, len(cases), size)]
+
+    def one(ix):
+        i, sh = ix
+        defs = 'Definition cases : list mlcase := %s.\n' % coq_list([mlcase_term(c) for c in sh])
+        res = vlib.coq_eval_lists(run.work, 'maploops_%d.v' % i, HEADER, defs, [('M', 'ml_mismatches cases')])
+        m = vlib.parse_nat_tuples(res.get('M'), 2)
+        if res['_rc'] != 0 or m is None:
+            return ('error', res['_out'][-2000:])
+        return [(c + i * size, k) for c, k in m]
+    mm = []
+    for o in vlib.parallel(one, list(enumerate(shards)), workers=6):
+        if o and o[0] == 'error':
+            return dict(evaluations=0, error=o[1], mismatches=1, mismatch_samples=[dict(error=o[1])])
+        mm += o
+    kinds = Counter(c['kind'] for c in cases)
+    sizes = Counter(min(len(c.get('entries') or []), 10) for c in cases if c['kind'] == 'validators')
+    return dict(evaluations=len(cases), cases_by_kind=dict(kinds), validator_set_sizes={str(k): v for k, v in sorted(sizes.items())},
+                inturn_outcomes=dict(Counter({0: 'false', 1: 'true', 2: 'panic'}[c['real_inturn']] for c in cases if c['kind'] == 'validators')),
+                mismatches=len(mm), mismatch_samples=[dict(kind=k, case=cases[c]) for c, k in mm[:3]])
 
 
 def replay(path):
